@@ -8,7 +8,7 @@ inlined helper / rewritten `try_for_each` are all the same thing.
 """
 from .common import *
 # helpers shared by the two modules of this owner (candidates for templates.py / common.py, see C13-NOTES.txt)
-from .C11 import reach_v, must_pass_v, EnumProbes, single_def, const_operand, plain_source, undecided_weak, negligible_tests
+from .C11 import reach_v, must_pass_v, EnumProbes, single_def, const_operand, plain_source, undecided_weak, negligible_tests, value_web
 
 VIEW = 'norm'
 # the conversions build `f + b*s` / `f + s` with the Add kernels of the polynomial algebra; a kernel that loses
@@ -76,7 +76,10 @@ def slack_rules(ctx, name, convert):
     if not pushes: return feats
     push_bbs = {c.bb for c in pushes}
 
-    def before_push(bb): return all(body.dominates(bb, pb) for pb in push_bbs)
+    def before_push(bb):
+        """every (feasible) path from the entry to a push passes bb — dominance, or, when the test sits in an inlined helper whose
+        Err / Ok(None) / Ok(Some) results merge again, the same thing decided with the variant-tracking reachability"""
+        return all(body.dominates(bb, pb) for pb in push_bbs) or must_pass_v(body, 0, push_bbs, {bb})
     # the instance is also modified on the always-satisfied path (relax_constraint moves the constraint): the rejection guards
     # (lookup, inequality, function present, every variable known and integral) must precede EVERY modification
     mut_bbs = push_bbs | {c.bb for c in body.calls if c.item == 'relax_constraint' and c.path.endswith('relax_constraint')}
@@ -296,7 +299,7 @@ def slack_rules(ctx, name, convert):
                     k0 = const_operand(body, c.args[0])
                     lo0 = k0 is not None and T.f64_const(k0['v']) == 0.0
                     s1 = ctx.S.slice_operand(body, c.args[1])
-                    sign, nums, dens = ratio(T.expr(body, c.args[1]))
+                    sign, nums, dens = ratio(xexpr(body, c.args[1]))
                     neg_lower = sign == -1 and len(nums) == 1 and not dens and is_bound_call(nums[0], 'lower')
                     good = lo0 and neg_lower and s1.has_call('as_integer_bound') and s1.has_call('evaluate_bound')
                     if good: slack_news.append(c)
@@ -351,7 +354,7 @@ def slack_rules(ctx, name, convert):
             ctx.check(same_id, R + '/coef/slack-id', 'T-CARRY', body.name, 'the slack term does not use the new variable id', body.site(c.bb))
             co = c.args[1]
             # COEFFICIENT as a signed ratio of atoms: -x, a*b, a/b, 0.0 - x, x.recip(), factors +-1.0 — in any grouping / hoisted into lets
-            sign, nums, dens = ratio(T.expr(body, co))
+            sign, nums, dens = ratio(xexpr(body, co))
             if convert:
                 ok = sign == 1 and not nums and len(dens) == 1 and T.expr_has_call(dens[0], name_re=r'impl v1::Function>::content_factor') and \
                      T.strip_wrappers(dens[0])[0] == 'call' and T.strip_wrappers(dens[0])[1] == 'content_factor'
@@ -470,7 +473,7 @@ def limit_target_rule(ctx, R, body, slack_news):
         if len(lim) != 1: continue
         other = ops[1 - lim[0]]
         if not ctx.S.slice_operand(body, other).has_call(r'impl v1::Function>::evaluate_bound'): continue
-        e = T.arith(T.expr(body, other, depth=40))
+        e = T.arith(xexpr(body, other))
         if e[0] == 'call' and e[1] == 'width' and e[2].endswith('bound::Bound::width') and e[3]:
             site = bound_site(e[3][0])
             verdicts.append(('ok' if site in news else 'bad', bi, 'the limit is applied to the width of `%s`, not of the slack variable\'s bound' % site))
@@ -538,6 +541,57 @@ def denotes_variant(body, sl_, variant_suffix):
         rv = st['rv']
         if rv['k'] == 'agg' and not rv['ops'] and rv['adt'].endswith(variant_suffix) and st['dst']['l'] in sl_.locals: return True
     return False
+
+
+def xexpr(body, operand):
+    """T.expr, continued through CARRIES where T.expr stops: a local with several definitions, or a projection of a value that went
+    through `?` / let-else / a helper returning Result<Option<_>> (`((x as Continue).0 as Some).0` of Err | Ok(None) | Ok(Some(v))):
+    C11.value_web follows every definition that is compatible with the projection; when they all lead to ONE computed value, the
+    expression of that value is substituted."""
+    def stack_of(fs):
+        out = []
+        for owner, f in fs:
+            name = owner.split('::')[-1]
+            if owner == 'tuple' or not ('::' in owner and name in ('Ok', 'Some', 'Continue', 'Err', 'None', 'Break')): out.append(('f', f))
+            else: out += [('dc', name), ('f', f)]
+        return out
+    OWNER = {'Continue': 'std::ops::ControlFlow::Continue', 'Ok': 'std::result::Result::Ok', 'OKISH': 'std::result::Result::Ok', 'Some': 'std::option::Option::Some',
+             'Err': 'std::result::Result::Err', 'Break': 'std::ops::ControlFlow::Break', 'None': 'std::option::Option::None'}
+    def fs_of(stack):
+        out = []; i = 0
+        while i < len(stack):
+            if stack[i][0] == 'dc' and i + 1 < len(stack) and stack[i + 1][0] == 'f': out.append((OWNER.get(stack[i][1], stack[i][1]), stack[i + 1][1])); i += 2
+            elif stack[i][0] == 'f': out.append(('tuple', stack[i][1])); i += 1
+            else: i += 1
+        return out
+    seen = set()
+    def simp(e, stack, depth=0):
+        if depth > 40 or not isinstance(e, tuple): return e
+        k = e[0]
+        if k == 'proj': return simp(e[1], stack_of(e[2]) + stack, depth + 1)
+        if k == 'call' and T.TRY_BRANCH.search(e[2]) and stack[:1] == [('dc', 'Continue')] and e[3]: return simp(e[3][0], [('dc', 'OKISH')] + stack[1:], depth + 1)
+        if k == 'agg' and e[1].split('::')[-1] in ('Ok', 'Some', 'Continue') and len(stack) >= 2 and stack[0][0] == 'dc' and stack[0][1] in (e[1].split('::')[-1], 'OKISH') and e[2]:
+            return simp(e[2][0], stack[2:], depth + 1)
+        if k in ('local', 'place') and e[1] >= 0 and not (1 <= e[1] <= body.argc):
+            st_ = (stack_of(e[2]) if k == 'place' else []) + stack
+            key = (e[1], tuple(st_))
+            if key not in seen:
+                seen.add(key)
+                orig = []
+                consts, adds, others = value_web(body, e[1], st_, lambda o: False, origins=orig)
+                cands = sorted(set(orig))
+                if len(cands) == 1 and not consts and not (cands[0] == e[1] and not st_):
+                    return simp(T.expr(body, {'k': 'copy', 'pl': {'l': cands[0], 'p': []}}, depth=40), [], depth + 1)
+            if stack: return ('proj', e, fs_of(stack))
+            return e
+        if stack: inner = simp(e, [], depth + 1); return ('proj', inner, fs_of(stack))
+        if k == 'bin': return ('bin', e[1], simp(e[2], [], depth + 1), simp(e[3], [], depth + 1))
+        if k in ('un', 'cast'): return (k, e[1], simp(e[2], [], depth + 1))
+        if k == 'call': return ('call', e[1], e[2], [simp(a, [], depth + 1) for a in e[3]]) + tuple(e[4:])
+        if k == 'agg': return ('agg', e[1], [simp(a, [], depth + 1) for a in e[2]])
+        if k == 'discr': return ('discr', simp(e[1], [], depth + 1))
+        return e
+    return simp(T.expr(body, operand, depth=40), [])
 
 
 def ratio(e):
